@@ -44,7 +44,9 @@ struct FVis {
 		{ multi::array<int, D, Alloc<int>> C2(C); C2.elements()[0] += 1; mix(std::uint64_t(C < C2)); mix(std::uint64_t(C2 <= C)); mix(std::uint64_t(C2() == C())); }
 		op("algorithms"); std::sort(C.begin(), C.end()); for(int e : C.elements()) mix(std::uint64_t(e)); { auto&& el = C.elements(); std::reverse(el.begin(), el.end()); std::rotate(el.begin(), el.begin() + el.size() / 3, el.end()); } for(int e : C.elements()) mix(std::uint64_t(e));
 		op("reextent"); { std::vector<L> ne = m.size; ne[0] += 1; if(D > 1) ne[std::size_t(D - 1)] = std::max<L>(1, ne[std::size_t(D - 1)] - 1); C.reextent(make_extensions<D>(ne), 77); for(int e : C.elements()) mix(std::uint64_t(e)); C.reextent(make_extensions<D>(ne)); C.reextent(make_extensions<D>(m.size)); for(auto s : tuple_to_vec(C.sizes())) mix(std::uint64_t(s)); }
-		op("view-assign"); { multi::array<int, D, Alloc<int>> E(v.extensions(), 5); E() = v; multi::array<int, D, Alloc<int>> F = E; F.elements()[0] = 9; swap(E, F); mix(std::uint64_t(E.elements()[0])); E = F.rotated(); F = std::move(E); mix(std::uint64_t(std::accumulate(F.elements().begin(), F.elements().end(), 0L))); mix(std::uint64_t(E.num_elements())); E.clear(); F = E; mix(std::uint64_t(F.num_elements())); }
+		op("view-assign"); { multi::array<int, D, Alloc<int>> E(v.extensions(), 5); E() = v; multi::array<int, D, Alloc<int>> F = E; F.elements()[0] = 9; swap(E, F); mix(std::uint64_t(E.elements()[0])); E = F.rotated(); F = std::move(E); mix(std::uint64_t(std::accumulate(F.elements().begin(), F.elements().end(), 0L))); mix(std::uint64_t(E.num_elements())); E.clear(); F = E; mix(std::uint64_t(F.num_elements()));
+			// arrays that had a block and lost it (clear(), moved-from by assignment) are sized again
+			E.reextent(v.extensions(), 3); mix(std::uint64_t(E.elements()[0])); multi::array<int, D, Alloc<int>> G2(v.extensions(), 8); F = std::move(G2); G2.reextent(v.extensions(), 4); mix(std::uint64_t(G2.num_elements())); G2.clear(); G2.reextent(v.extensions()); mix(std::uint64_t(G2.num_elements())); G2.clear(); G2 = v; mix(std::uint64_t(G2.elements()[0])); }
 		// non-trivially destructible elements, including arrays that are (or become) empty
 		op("owning<string>");
 		{ using SA = multi::array<std::string, D, Alloc<std::string>>; SA S(v.extensions()); { L q = 0; for(auto& e : S.elements()) e = std::string(18, 'x') + std::to_string(q++); } SA S2(S); SA S3(S.rotated()); for(auto const& e : S3.elements()) mixs(e);
